@@ -29,7 +29,7 @@ def lemmas(tier):
                         desc="the repository's %s = strconv's, both executed from their real code on arbitrary symbolic arguments%s" % (
                             nm, " for every q in -348..347 (each power-of-ten table entry)" if fn == 3 else ""),
                         bound="all argument values in the functions' documented ranges", expect_reach=["R1f.fn"]))
-    ls.append(Lemma("R1f.fmtF", "verifHarness_R1f_FmtF", ["zz_verif_tape.go", "zz_verif_r1f.go"], intr=RyuHelperIntrinsics, stop=STOP_WITH_STRCONV, split_depth=1,
+    ls.append(Lemma("R1f.fmtF", "verifHarness_R1f_FmtF", ["zz_verif_r1f.go"], intr=RyuHelperIntrinsics, stop=STOP_WITH_STRCONV, split_depth=1,
                     desc="the repository's fmtF (integer part with zero padding, fraction with leading zeros) = strconv.fmtF executed from the toolchain's SSA, "
                          "on explicit digit strings: every digit count 0..17, every decimal point -6..22, symbolic digits and sign, precision max(nd-dp,0)",
                     bound="nd 0..17, dp -6..22 (case split), 17 symbolic digits", expect_reach=["R1f.fmtF"]))
